@@ -71,6 +71,12 @@ class TasksRun:
             run.log("taskClosed", tid)
 
         async def body(*, task_status: Any = None) -> None:
+            cc = current_context()
+            if not spec.get("from_nested") and (cc is run.owner_ctx or cc.parent is not run.owner_ctx):
+                # C12: the task runs in a context of its own whose parent is the context that was current where it
+                # was started (inside a component: the context start_component() was called in)
+                run.log("probeFailed", tid, f"service task {tid} runs in a context whose parent is not the context that was "
+                                            f"current where it was started", "C12,C08")
             add_teardown_callback(closer)
             if spec.get("pre_reg") is not None:
                 # the task publishes something of its own on the owner (with a teardown callback) before it
@@ -243,9 +249,10 @@ class TasksRun:
         try:
             with anyio.move_on_after(10.0 ** 7) as guard:
                 async with Context() as root:
-                    self.root = root
+                    self.root = self.owner_ctx = root
                     if self.case.get("nested"):
                         async with Context() as owner:
+                            self.owner_ctx = owner
                             await self.setup(owner)
                         self.log("blockLeft")
                     else:
